@@ -219,6 +219,22 @@ static void lib_statics_reset() {
     if (changed) g_lib_static_resets++;
 }
 
+__attribute__((noinline)) void poison_stack_shallow() {
+    unsigned char buf[1024];
+    memset(buf, (int)((g.junk_seed >> 23) & 0xff) | 0x41, sizeof buf);
+    __asm__ volatile("" : : "r"(buf) : "memory");
+}
+__attribute__((noinline)) void poison_stack_deep(size_t bytes) {
+    // stay clear of the guard page / the end of the stack of the running context
+    unsigned char here; uintptr_t sp = (uintptr_t)&here;
+    uintptr_t lo = g.cur ? g.cur->stack_lo : 0;
+    if (lo && sp > lo + 65536 && bytes > sp - lo - 65536) bytes = sp - lo - 65536;
+    if (bytes > (1u << 20)) bytes = 1u << 20;
+    unsigned char* p = (unsigned char*)__builtin_alloca(bytes);
+    memset(p, (int)((g.junk_seed >> 23) & 0xff) | 0x41, bytes);
+    __asm__ volatile("" : : "r"(p) : "memory");
+}
+
 void run_reset(uint64_t junk_seed, ReusePolicy reuse, int redzone) {
     lib_statics_reset();
     arenas_reset();
@@ -234,6 +250,7 @@ void run_reset(uint64_t junk_seed, ReusePolicy reuse, int redzone) {
     g.loads = g.stores = g.edges = 0;
     g.giant_lo = g.giant_hi = 0; g.load_faults = 0;
     g.step_budget = 30000000ull;
+    poison_stack_deep(96 * 1024);
 }
 
 // ---------------------------------------------------------------- heap
